@@ -2,7 +2,7 @@
 
 use std::collections::BTreeMap;
 
-use chitchat::ChitchatId;
+use chitchat::{ChitchatId, DeletionStatus};
 
 use crate::sim::{mk_id, mk_id6, NodeSpec, Pred, Sim};
 use crate::util::Prng;
@@ -524,8 +524,25 @@ async fn gen_proc(sim: &mut Sim, rng: &mut Prng, stats: &mut Stats, name: &str) 
                     }
                     spec.kv_grace_ns = kv_grace;
                     spec.dead_grace_ns = dead_grace;
-                    sim.join(spec);
+                    let newi = sim.join(spec);
                     stats.bump("op_restart_new_generation");
+                    if !readvertise && rng.chance(1, 2) {
+                        // the new incarnation learns its previous one from a peer, outlives it by
+                        // the dead-node grace period and collects it: its own state must survive
+                        let peer = (0..sim.nodes.len()).find(|&p| p != newi && p != j);
+                        if let Some(peer) = peer {
+                            sim.set(newi, "own", "1");
+                            full_handshake(sim, peer, j);
+                            full_handshake(sim, newi, peer);
+                            sim.eval(newi);
+                            sim.tick(dead_grace).await;
+                            sim.eval(newi);
+                            sim.tick(1).await;
+                            sim.eval(newi);
+                            full_handshake(sim, newi, peer);
+                            stats.bump("op_previous_incarnation_collected");
+                        }
+                    }
                 }
             }
         }
@@ -1253,7 +1270,8 @@ pub async fn gen_wire(sim: &mut Sim, rng: &mut Prng, stats: &mut Stats, name: &s
             match rng.below(6) {
                 0 => {
                     // truncate
-                    let n = rng.below(bytes.len() as u64 + 1) as usize;
+                    // (one time in three: inside the first nine bytes — header, tag, first length)
+                    let n = if rng.chance(1, 3) { rng.below(9.min(bytes.len() as u64 + 1)) as usize } else { rng.below(bytes.len() as u64 + 1) as usize };
                     bytes.truncate(n);
                     stats.bump("wire_truncated");
                 }
@@ -1276,6 +1294,9 @@ pub async fn gen_wire(sim: &mut Sim, rng: &mut Prng, stats: &mut Stats, name: &s
                         b[1] = 0xb0;
                         b[2] = 0;
                         b[3] = rng.below(5) as u8;
+                    } else if rng.chance(1, 4) {
+                        // a bare header, complete or not
+                        b = [0x53u8, 0xb0, 0, rng.below(5) as u8][..rng.range(1, 5) as usize].to_vec();
                     }
                     bytes = b;
                     stats.bump("wire_noise");
@@ -1555,6 +1576,39 @@ pub async fn gen_listen(sim: &mut Sim, rng: &mut Prng, stats: &mut Stats, name: 
                 sim.calls(0);
                 sim.calls(1);
                 stats.bump("handshake");
+            }
+            95..=97 => {
+                // external catch-up on the peer: the fetched state repeats what n already holds
+                // (same versions: no listener may fire for those) and adds newer keys
+                let m = 1 - n;
+                let mid = sim.nodes[m].spec.id.clone();
+                let (mut kvs, cur_max): (Vec<(String, String, u64, u8)>, u64) = match sim.nodes[n].chitchat.node_state(&mid) {
+                    Some(ns) => (
+                        ns.key_values_including_deleted()
+                            .map(|(k, vv)| {
+                                let st = match vv.status {
+                                    DeletionStatus::Set => 0u8,
+                                    DeletionStatus::Deleted(_) => 1,
+                                    DeletionStatus::DeleteAfterTtl(_) => 2,
+                                };
+                                (k.to_string(), vv.value.clone(), vv.version, st)
+                            })
+                            .collect(),
+                        ns.max_version(),
+                    ),
+                    None => (Vec::new(), 0),
+                };
+                let mut ver = cur_max;
+                for _ in 0..rng.range(1, 3) {
+                    ver += 1;
+                    let k = alpha_string(rng, 3);
+                    if kvs.iter().all(|(k0, _, _, _)| *k0 != k) {
+                        kvs.push((k, alpha_string(rng, 2), ver, 0));
+                    }
+                }
+                sim.catchup(n, &mid, &kvs, ver, 0);
+                sim.calls(n);
+                stats.bump("catchup_with_listeners");
             }
             _ => {
                 sim.tick(1_000).await;
